@@ -607,14 +607,29 @@ func GenMotifProg(r *RNG, q *big.Int) *Prog {
 			outs = append(outs, m1, m2, m3)
 		}
 	}
-	// a few independent ops on top
+	// a few independent ops on top (never on an accumulator that was passed as first argument to MulAcc:
+	// the API documents that it may have been mutated)
+	deadAcc := map[int]bool{}
+	for _, op := range p.Ops {
+		if op.Kind == "MulAcc" && !op.Args[0].Const {
+			deadAcc[op.Args[0].V] = true
+		}
+	}
+	live := func() int {
+		for try := 0; try < 30; try++ {
+			if v := r.Intn(nvars); !deadAcc[v] {
+				return v
+			}
+		}
+		return 0
+	}
 	for i := 0; i < r.Intn(3); i++ {
 		k := []string{"Add", "Mul", "Sub", "IsZero", "Neg"}[r.Intn(5)]
 		switch k {
 		case "IsZero", "Neg":
-			outs = append(outs, emit(k, V(r.Intn(nvars))))
+			outs = append(outs, emit(k, V(live())))
 		default:
-			outs = append(outs, emit(k, V(r.Intn(nvars)), V(r.Intn(nvars))))
+			outs = append(outs, emit(k, V(live()), V(live())))
 		}
 	}
 	// expose up to 3 of the results
